@@ -39,6 +39,8 @@ func GenPackage(r *Rand, name string, nfuncs int) (string, GenStats) {
 	g.p("var extf = func(x int) int { return x + 1 }\n")
 	g.p("func iter(n int) func(func(int, int) bool) { return func(yield func(int, int) bool) { for i := 0; i < n; i++ { if !yield(i, i*i) { return } } } }\n")
 	g.p("type Num interface { ~int | ~int64 | ~float64 }\n")
+	g.p("func arrf() [4]int { return [4]int{1, 2, 3, 4} }\n")
+	g.p("func tf() T { return T{a: 1, b: 2} }\n")
 	g.p("var G int\nvar GP = &G\nvar GT T\n\n")
 	for i := 0; i < nfuncs; i++ {
 		switch k := g.r.Intn(10); {
@@ -65,7 +67,36 @@ func (g *gen) cond() string { return conds[g.r.Intn(len(conds))] }
 // simple statements over the fixed variable set of a goto function / structured function:
 //   a int, b []int, q *int (params); s, t int; arr [4]int; p *int; f func() int; m map[int]int; tt T; ii I
 func (g *gen) simple(depth int) string {
-	switch g.r.Intn(26) {
+	switch g.r.Intn(40) {
+	case 26:
+		// loop whose post statement is unreachable: the loop header loses a predecessor in deleteUnreachableBlocks
+		return "for i := 0; i < a; i++ { t += i; break }"
+	case 27:
+		return "for i := 0; i < len(b); i++ { if b[i] > s { s = b[i] }; break }"
+	case 28:
+		return "go func() { G++ }()"
+	case 29:
+		return "{ c2 := make(chan int, 1); c2 <- s; t = <-c2; if v, ok := <-c2; ok { s = v } }"
+	case 30:
+		return "t = arrf()[a&3] + tf().b"
+	case 31:
+		return "{ fl := float64(s) * 1.5; t = int(fl); _ = S(b) }"
+	case 32:
+		return "for _, r := range \"h\\u00e9llo\" { s += int(r) }"
+	case 33:
+		return "t = int(\"abc\"[a&1])"
+	case 34:
+		return "if v, ok := ii.(*T); ok && v != nil { s += v.b } else if w, ok := ii.(S); ok { t += len(w) }"
+	case 35:
+		return "if len(b) >= 2 { pa := (*[2]int)(b); s += pa[1] }"
+	case 36:
+		return "{ sl := make([]int, a&7, 8); sl = append(sl, b...); b = sl[1:len(sl):cap(sl)] }"
+	case 37:
+		return "{ x := a > 0 && t < 3; y := x || s == 7; if y { t++ } }"
+	case 38:
+		return "{ l := &T{a: s, next: &tt}; l.next.b = t; s = l.next.a + l.a }"
+	case 39:
+		return "{ fn := tt.M; t = fn(s); var e any = s; if n, ok := e.(int); ok { s = n } }"
 	case 0:
 		return "s += a"
 	case 1:
@@ -309,6 +340,9 @@ func (g *gen) stmt(depth int, inLoop bool, label string) string {
 		}
 		return g.simple(1)
 	case 12:
+		if g.r.Chance(30) {
+			return fmt.Sprintf("for i := 0; i < a; i++ {\ns += i\n%s\n%s\n}", g.simple(1), g.ret)
+		}
 		return fmt.Sprintf("if %s { %s }", g.cond(), g.ret)
 	case 13:
 		saved := g.ret
